@@ -5,13 +5,14 @@
    each starts on the first content line of a field with a value and ends on the last line of
    such a field (C10_final_object); where recorded ranges come from; that they are tight for the
    field; the shift law for the whole object for every text in which each paragraph has a field
-   with a value; how ranges compose through merge and fold.  Not assembled into one statement:
-   that every WORD of a value of the final object occurs in lines start..end (proved per field
-   for the lines of the field, C05/C11; decided for the final object by the executable
-   statement), and the shift law for paragraphs in which no field has a value). *)
+   with a value; how ranges compose through merge and fold; and for EVERY text and the FINAL
+   object every word of the value of a field stands on a source line inside the range recorded
+   for that field (C10_words_in_range).  Not proved: the shift law for texts holding a paragraph
+   in which no field has a value (such a paragraph records no true range; decided by
+   co-execution and by the executable statement). *)
 From Coq Require Import String.
 From Coq Require Import NArith List Bool Sorted.
-From DI Require Import Result PyStr Deb822 Debcon Copyright Deb822Facts CopyrightFacts RangeFacts Dep5Facts ConserveFacts ShiftFacts RangeFinal.
+From DI Require Import Result PyStr Deb822 Debcon Copyright Deb822Facts CopyrightFacts RangeFacts Dep5Facts WordFacts ConserveFacts ShiftFacts RangeFinal RangeWords.
 Import ListNotations.
 Open Scope N_scope.
 
@@ -95,6 +96,32 @@ Theorem C10_final_object : forall t ps, from_text t = Ok ps ->
       exists f g, In f (all_live gs) /\ In g (all_live gs) /\ fst r = first_content_line f /\ snd r = last_line g.
 Proof. exact from_text_final. Qed.
 Print Assumptions C10_final_object.
+
+(* THE FINAL OBJECT, every text: every word (a lone full stop, the blank-line marker, is not a word)
+   of the value a field has in the dictionary form stands on one of the numbered lines the parser made
+   of the text (C05: line n holds source line n, the value part of it for a declaration line), and the
+   number of that line lies inside the range recorded for the field - whether the value was typed,
+   kept as extra data under a renamed key, merged from several unknown paragraphs, or folded into an
+   empty license. *)
+Theorem C10_words_in_range : forall t gs ps, groups t = Ok gs -> from_text t = Ok ps ->
+  Forall (fun p => forall name r, In (name, r) (p_lines p) ->
+            forall w, In w (cwords (lookup name (para_to_dict p))) ->
+            exists n, fst r <= n <= snd r /\
+                      exists l, In l (flat gs) /\ ln_num l = n /\ In w (cwords (ln_val l))) ps.
+Proof. exact from_text_words_located. Qed.
+Print Assumptions C10_words_in_range.
+
+Example C10_words_in_range_nonvacuous :
+  let t := lit "junk one
+junk two
+
+License:
+
+folded text
+" in
+  rmap (map (fun p => map (fun kv => (snd kv, cwords (lookup (fst kv) (para_to_dict p)))) (p_lines p))) (from_text t) =
+  Ok [[((1, 2), [lit "junk"; lit "one"; lit "junk"; lit "two"])]; [((6, 6), [lit "folded"; lit "text"])]].
+Proof. vm_compute. reflexivity. Qed.
 
 (* final_ranges is what it says: per paragraph, the recorded ranges whose name has a non-empty value *)
 Example C10_final_ranges_def : forall ps,
